@@ -103,6 +103,17 @@ def decompose(cond, pol, out):
             for x in cond.a[1:]:
                 decompose(x, True, out)
             return
+    # min(a, b, ...) == 0 is false for counts  <=>  every count is non-zero
+    if cond.op == "cmp" and cond.a[0] in ("==", "!=") and (pol is (cond.a[0] == "!=")):
+        for mn, z in ((cond.a[1], cond.a[2]), (cond.a[2], cond.a[1])):
+            if tm.is_const(z, 0) and mn.op == "call" and call_name(mn) in ("builtins.min", "np.min", "np.minimum"):
+                items = list(mn.a[1])
+                if len(items) == 1 and items[0].op in ("list", "tuple"):
+                    items = list(items[0].a)
+                if len(items) >= 2 and all(count_form(x) is not None for x in items):
+                    for x in items:
+                        decompose(tm.cmp("==", x, tm.const(0)), False, out)
+                    return
     # a * b == 0 is false  <=>  a != 0 and b != 0 ;  a * b != 0 is true likewise
     if cond.op == "cmp" and cond.a[0] in ("==", "!=") and (pol is (cond.a[0] == "!=")):
         for prod, z in ((cond.a[1], cond.a[2]), (cond.a[2], cond.a[1])):
